@@ -33,6 +33,8 @@ FAMILIES = [
     dict(name="resume", params=dict(BASE, kinds=["w", "wm", "ping", "multi"], kf=True), mc_len=(4, 5), paths_quick=250, paths_thorough=2500),
     dict(name="resume-2cuts", params=dict(BASE, crash=2, sender_count=3, kinds=["w", "ping"]), mc_len=(4, 5), paths_quick=150, paths_thorough=1500),
     dict(name="resume-dbfilter", params=dict(BASE, fdbs=[1], sender_count=1, kinds=["w", "multi"]), mc_len=(4, 6), paths_quick=150, paths_thorough=1500),
+    # keep-alive PINGs while a filtered database is selected: nothing of that region may move the checkpoint
+    dict(name="resume-dbfilter-ping", params=dict(BASE, fdbs=[1], sender_count=2, kinds=["w", "ping"]), mc_len=(4, 6), paths_quick=150, paths_thorough=1500),
     dict(name="resume-targetdb", params=dict(BASE, tdb=1, kinds=["w", "wf", "ping"], kf=True), mc_len=(4, 5), paths_quick=150, paths_thorough=1500),
 ]
 
